@@ -41,6 +41,41 @@ def _sym_path(ctx, lat, s, L):
     return path
 
 
+def _choose_path(ctx, lat, job):
+    """the solution of a solved-maze instance: every simple path of L cells from the start cell (solver-free forks), or - on the
+    larger grids - one given path whose connections are assumed set while all other bits stay symbolic"""
+    if job.get("fixed_sol"):
+        path = [tuple(p) for p in job["fixed_sol"]]
+        on_path = set()
+        for u, v in zip(path, path[1:]):
+            ctx.solver.add(lat.bit[lat.edge_between(u, v)])
+            on_path.add(lat.edge_between(u, v))
+        if job.get("free_incident") is not None:
+            # the reader walks along the solution and looks at every connection of every solution cell: to keep the number of paths
+            # small only `free_incident` of those connections stay symbolic, the others get seeded concrete values in this instance
+            # (all connections that touch no solution cell stay symbolic)
+            inc = sorted({k for k in lat.edge_idx if k not in on_path and any(p in path for p in lat.ends(k))})
+            rng = np.random.default_rng(len(inc) * 7 + lat.r * 31 + lat.c)
+            keep = set(map(tuple, [inc[i] for i in rng.choice(len(inc), size=min(job["free_incident"], len(inc)), replace=False)]))
+            for k in inc:
+                if tuple(k) not in keep:
+                    ctx.solver.add(lat.bit[k] == bool(rng.random() < 0.5))
+        return path
+    return _sym_path(ctx, lat, tuple(job["s"]), job["L"])
+
+
+def _staircase(r, c, n):
+    """a monotone (right/down) path of n cells from (0,0): always a shortest path, whatever the other connections are"""
+    path, i, j = [(0, 0)], 0, 0
+    while len(path) < n:
+        if (len(path) % 3 != 0 and j + 1 < c) or i + 1 >= r:
+            j += 1
+        else:
+            i += 1
+        path.append((i, j))
+    return [list(p) for p in path]
+
+
 def _expected_pixel(lat, kind, s, e, sol, show_e, show_s, y, x):
     """expected colour of pixel (y, x) as a tuple of 3 z3 int terms.
     s, e: tuples of z3 terms or ints (None for an untargeted maze); sol: concrete cell list or None."""
@@ -118,8 +153,7 @@ def _run_render(job):
             e = (ctx.inputs["ei"], ctx.inputs["ej"])
             m = _build(kind, cl, SNP.array([si, sj]), SNP.array([ei, ej]), None)
         elif kind == "SolvedMaze":
-            s0 = tuple(job["s"])
-            sol = _sym_path(ctx, lat, s0, job["L"])
+            sol = _choose_path(ctx, lat, job)
             ctx.inputs["sol"] = z3.IntVal(0)
             ctx.notes["sol"] = [list(p) for p in sol]
             s, e = sol[0], sol[-1]
@@ -281,7 +315,7 @@ def _run_roundtrip(job):
             e = rest[ctx.choose(len(rest))]
             ctx.inputs.update(si=z3.IntVal(s[0]), sj=z3.IntVal(s[1]), ei=z3.IntVal(e[0]), ej=z3.IntVal(e[1]))
         elif kind == "SolvedMaze":
-            sol = _sym_path(ctx, lat, tuple(job["s"]), job["L"])
+            sol = _choose_path(ctx, lat, job)
             ctx.notes["sol"] = [list(p) for p in sol]
             s, e = sol[0], sol[-1]
             # precondition of the property: the solution is a shortest path (start != end since L >= 2)
@@ -363,6 +397,17 @@ def jobs(tier, seed):
         for s in [(0, 0), (r - 1, c - 1)]:
             for L in (1, 2, 3):
                 out.append(dict(h="ascii", kind="SolvedMaze", r=r, c=c, s=list(s), L=L, order=[0, 2, 1]))
+    # larger and oblong grids (one path each: every connection bit stays symbolic through the merged renderer / the reader)
+    for r, c in ([(5, 9), (9, 5), (12, 12), (1, 13)] if q else [(5, 9), (9, 5), (12, 12), (1, 13), (13, 1), (7, 12), (16, 16)]):
+        out.append(dict(h="render", kind="LatticeMaze", r=r, c=c, order=[0, 1, 2], max_seconds=3300))
+        out.append(dict(h="roundtrip", kind="LatticeMaze", r=r, c=c, via="pixels", max_seconds=3300))
+        if r > 1 and c > 1:
+            n = min(r + c - 1, 14)
+            out.append(dict(h="render", kind="SolvedMaze", r=r, c=c, fixed_sol=_staircase(r, c, n), order=[2, 0, 1], max_seconds=3300))
+            if r * c <= 60 or not q:
+                out.append(dict(h="roundtrip", kind="SolvedMaze", r=r, c=c, fixed_sol=_staircase(r, c, n), free_incident=4 if q else 7, via="pixels", max_seconds=3300))
+    for r, c in ([(4, 7), (7, 4)] if q else [(4, 7), (7, 4), (6, 6), (12, 12)]):
+        out.append(dict(h="render", kind="TargetedLatticeMaze", r=r, c=c, order=[1, 0, 2], max_seconds=3300))
     for H, W in ([(1, 1), (3, 3), (5, 7), (9, 9), (17, 17)] if q else [(1, 1), (3, 3), (3, 9), (5, 7), (9, 9), (17, 17), (25, 25), (31, 13)]):
         out.append(dict(h="from_bw", H=H, W=W))
     for via in ("pixels", "ascii"):
@@ -411,7 +456,8 @@ META = dict(
         quick="all connection bits symbolic; rendering: grids 1x1..2x3 and 3x3, untargeted / targeted (start, end symbolic cells) / solved (every simple "
               "path of 1..4 cells from each start cell, 3 start cells on 3x3) x the three accepted option combinations rendered on the SAME object in "
               "up to 3 different orders; _from_pixel_grid_bw with a fully symbolic picture up to 17x17 px; pixel and ASCII round trips on <=2x3 and 3x3 "
-              "for every simple shortest path of 2..5 cells (2..4 on 3x3)",
+              "for every simple shortest path of 2..5 cells (2..4 on 3x3); larger / oblong grids 5x9, 9x5, 12x12, 1x13 with every connection bit symbolic in one path: rendering and pixel round trip of "
+              "untargeted mazes and of solved mazes with one given staircase solution (<= 14 cells; in the round trip only 4 of the connections that touch a solution cell stay symbolic, the reader forks on those), targeted rendering with symbolic endpoints on 4x7 and 7x4",
         thorough="adds 2x1, 3x2, 1x4 grids, paths of 5 (render) / 6 (round trip) cells, all 9 start cells on 3x3, pictures up to 31x13 / 25x25 px",
     ),
     degenerate=dict(ascii="all inputs forked (string arrays cannot hold symbolic characters)",
@@ -419,7 +465,7 @@ META = dict(
     stubs=stubs_description(np_modules=["maze_dataset.maze.lattice_maze"], stub_ascii=False) + [
         "LatticeMaze._as_pixels_bw -> state-merged version rebuilt from its current source on every run: `if connected: grid[k] = True` becomes "
         "`grid[k] = ite(connected, True, grid[k])` (symx/merge.py), so rendering is one path for all mazes"],
-    outside=["grids beyond 3x3", "solutions longer than the bound or with repeated cells", "round trip when start == end or the solution is not a shortest path "
+    outside=["exhaustive treatment of solutions and endpoint pairs on grids beyond 3x3 (there: all connection structures, but one given staircase solution per grid and symbolic endpoints only up to 7x4; 12x12 thorough)", "solutions longer than the bound or with repeated cells", "round trip when start == end or the solution is not a shortest path "
              "(excluded by the property)", "pictures that are not renderings of a maze"],
     assumptions=["representation invariant on input mazes", "solutions are simple paths along set connections"],
 )
